@@ -232,3 +232,33 @@ def rule_operator_spacing(run, prog, rid="R-2.9"):
         raise Undecided(f"CheckOperatorsSpacing / a primary is outside the evaluable subset: {e}")
     run.ob(rid, "rules/check_operators_spacing.py::CheckOperatorsSpacing.run::removed-blank", bad is None,
            (f"`{bad[0]}` ({bad[1]}) gets the spacing diagnostics {bad[2]}") if bad else "", None, evaluations=n)
+
+
+def rule_unrecognisable_fragments(run, prog, rid="R-7.8"):
+    run.rule(rid, "an unrecognisable fragment is claimed by no statement kind: for a family of fragments that are no C statement (a "
+             "stray constant, closing bracket, string, operator, `= 3`, each alone, after a `;`, with and without the final newline "
+             "of the file), at file level, no primary -- interpreted in priority order the way Registry.run tries them -- reports a "
+             "match that covers the fragment without a diagnostic (the registry then raises its fatal `Unrecognized line`)",
+             floor=1)
+    garbage = ["42", "]", ")", '"abc"', "->", "+", "= 3", "42 ]", ";42", "; ]", "\t)"]
+    bad, n = None, 0
+    try:
+        for g in garbage:
+            for tail in ("", "\n"):                # the last line of the file, with and without its newline
+                n += 1
+                toks = lex(prog, g + tail, first_line=30)
+                name, o = first_match(prog, toks, scope="GlobalScope", history=("IsFuncDeclaration", "IsBlockStart", "IsBlockEnd"))
+                if name is None or o is None or o.raised or not o.matched:
+                    continue
+                if o.hang:
+                    bad = bad or (g, tail, name, "does not terminate")
+                    continue
+                # a leading `;` / blank may be a statement of its own; what must not happen is that the claim reaches the garbage
+                first_garbage = next(i for i, t in enumerate(toks) if t.__dict__["type"] not in ("SEMI_COLON", "SPACE", "TAB"))
+                if o.claimed > first_garbage and not o.codes and bad is None:
+                    bad = (g, tail, name, f"claims {o.claimed} token(s) of {len(toks)} without a diagnostic")
+    except Unsupported as e:
+        raise Undecided(f"a primary is outside the evaluable subset: {e}")
+    run.ob(rid, "registry.py::Registry.run::unrecognisable-fragment", bad is None,
+           (f"the fragment {bad[0]!r} followed by {bad[1]!r} at file level: {bad[2]} {bad[3]}: text no rule understands is consumed "
+            f"silently and the file can still be reported OK!") if bad else "", None, evaluations=n)
